@@ -105,6 +105,7 @@ class DiscoverSubcircuits(UsedQubitIndicesVisitor):
 
         count = len(self.subcircuits)
         had_started = self.current is not None
+        open_at_entry = self.current
 
         # XXX: using a trace restriction here is untested
         for n, stmt in self.trace_statements(block.statements):
@@ -112,8 +113,19 @@ class DiscoverSubcircuits(UsedQubitIndicesVisitor):
                 indices, self.visit(stmt, context=context), disjoint=block.parallel
             )
 
-        if had_started and (reps > 1) and (len(self.subcircuits) != count):
+        if had_started and (reps != 1) and (len(self.subcircuits) != count):
             raise JaqalError("measure_all -> prepare_all not supported in loops")
+
+        if (
+            (reps != 1)
+            and (self.current is not None)
+            and (self.current is not open_at_entry)
+        ):
+            # The body is not executed exactly once, so a subcircuit that
+            # starts in it must also be measured in it.
+            raise JaqalError(
+                "prepare_all in a loop must be followed by measure_all in the same loop"
+            )
 
         return indices
 
